@@ -9,14 +9,17 @@ every number of groups — and for *every* number type `ν` with the operations 
 (no laws needed: exact `Int`/`Rat` arithmetic and IEEE `Float` alike).
 
 Two hypotheses appear, both decidable on the input:
-* `KeysInj enc rows` — distinct group-key tuples of the input have distinct encodings.  The code's
-  encoder (`encJoin`, parts joined with "|") is not injective; `global_group_isolation_fails`.
+* `KeysInj enc rows` — distinct group-key tuples of the input have distinct encodings.  For the code's
+  encoder (`encGlobal`, the escaped `|`-join of `window/group_key.go`) this is a theorem, not a
+  hypothesis: `keysInj_encGlobal` (from C04's injectivity proof), for every input whose key tuples have
+  one arity — the number of GROUP BY columns.  The `…_global` corollaries state the property for it.
 * `pointSafe p seg` / `NullSafe` — at the evaluation point every aggregate mentioned by the predicate
   is non-NULL, or the predicate is a conjunction without `!=`.  Outside, expr-lang's treatment of
   `nil` (`nil != x` is true; `nil < x` aborts the whole predicate) departs from SQL's three-valued
   logic; `global_fires_iff_fails`.
 -/
 import SsqlVerif.Proofs.GlobalRun
+import SsqlVerif.Proofs.GroupKey
 import SsqlVerif.Generated.Facts
 set_option autoImplicit false
 
@@ -120,6 +123,9 @@ theorem global_restart_empty (enc : κ → ε) (q : Query α φ ν) (pre : List 
 
 /-! ## isolation -/
 
+/-- a row without fields -/
+def rw' (k : Nat) : Row Nat Nat Int := { key := k, ts := 0, cells := [] }
+
 /-- Under distinct encodings: the deliveries at the rows of group `k` in a run over `rows` are exactly
 the deliveries of a run over the rows of group `k` alone — rows of other groups neither trigger nor
 contribute. -/
@@ -128,26 +134,55 @@ theorem global_group_isolation_partial (enc : κ → ε) (q : Query α φ ν) (r
     proj k rows (run enc q rows) = run enc q (rows.filter fun r => r.key = k) :=
   proj_runFrom enc q _ hK k hk rows (fun r hr => List.mem_map.mpr ⟨r, hr, rfl⟩) _ _ rfl
 
-/-- the unrestricted statement for the encoder of `getKeyAndValues` (string / NULL key parts) -/
-def global_group_isolation_full : Prop :=
-  ∀ (q : Query Nat Nat Int) (rows : List (Row (List KeyPart) Nat Int)) (k : List KeyPart),
-    k ∈ rows.map (·.key) →
-    proj k rows (run encJoin q rows) = run encJoin q (rows.filter fun r => r.key = k)
+/-! ### the code's encoder: `KeysInj` holds for every input (string / NULL key parts, one arity) -/
+
+omit [DecidableEq κ] [DecidableEq φ] [DecidableEq ε] [Num ν] in
+/-- C04's injectivity of the escaped `|`-join discharges the hypothesis "encoded keys distinct":
+("x|y","z") and ("x","y|z"), NULL and "" … all have different encodings. -/
+theorem keysInj_encGlobal (n : Nat) (rows : List (Row (List KeyPart) φ ν))
+    (harity : ∀ r ∈ rows, r.key.length = n) : KeysInj encGlobal rows := by
+  intro k₁ h₁ k₂ h₂ he
+  obtain ⟨r₁, hr₁, rfl⟩ := List.mem_map.mp h₁
+  obtain ⟨r₂, hr₂, rfl⟩ := List.mem_map.mp h₂
+  exact GroupKey.encWindow_injective _ _ _ (by rw [harity r₁ hr₁, harity r₂ hr₂]) he
+
+/-- Isolation for the engine's encoder, no hypothesis on the key values: the deliveries at the rows
+of group `k` are those of a run over the rows of group `k` alone. -/
+theorem global_group_isolation (q : Query α φ ν) (n : Nat) (rows : List (Row (List KeyPart) φ ν))
+    (harity : ∀ r ∈ rows, r.key.length = n) (k : List KeyPart) (hk : k ∈ rows.map (·.key)) :
+    proj k rows (run encGlobal q rows) = run encGlobal q (rows.filter fun r => r.key = k) :=
+  global_group_isolation_partial encGlobal q rows (keysInj_encGlobal n rows harity) k hk
+
+/-- Firing and result for the engine's encoder, no hypothesis on the key values. -/
+theorem global_fires_and_result_global (q : Query α φ ν) (n : Nat) (pre : List (Row (List KeyPart) φ ν))
+    (r : Row (List KeyPart) φ ν) (harity : ∀ x ∈ pre ++ [r], x.key.length = n) :
+    (outAt encGlobal q pre r).isSome = engineTrue q.pred (segAt encGlobal q pre r) ∧
+    (pointSafe q.pred (segAt encGlobal q pre r) = true →
+      (outAt encGlobal q pre r).isSome = predTrue q.pred (segAt encGlobal q pre r)) ∧
+    ∀ res, outAt encGlobal q pre r = some res → res = expected q (segAt encGlobal q pre r) r :=
+  have hK := keysInj_encGlobal n (pre ++ [r]) harity
+  ⟨global_fires_iff_engine encGlobal q pre r hK,
+   fun hs => global_fires_iff_partial encGlobal q pre r hK hs,
+   fun res h => global_result_exact encGlobal q pre r hK res h⟩
 
 def countGe2 : Query Nat Nat Int :=
   { outputs := [(0, ⟨.count, none⟩)], pred := .cmp ⟨.count, none⟩ .ge 2 }
 
+/-- the tuples that shared a group before the C04 repair of the encoder -/
 def collideRows : List (Row (List KeyPart) Nat Int) :=
   [ { key := [some ['x', '|', 'y'], some ['z']], ts := 1, cells := [] },
-    { key := [some ['x'], some ['y', '|', 'z']], ts := 2, cells := [] } ]
+    { key := [some ['x'], some ['y', '|', 'z']], ts := 2, cells := [] },
+    { key := [some ['x'], some ['y', '|', 'z']], ts := 3, cells := [] } ]
 
-/-- refutation witness: ("x|y","z") and ("x","y|z") encode alike; the second row fires a group that
-its own rows alone would not fire -/
-theorem global_group_isolation_fails : ¬ global_group_isolation_full := by
-  intro h
-  have := h countGe2 collideRows [some ['x'], some ['y', '|', 'z']] (by decide)
-  revert this
-  decide
+-- the second row no longer fires the first row's group; the third fires its own
+example : (run encGlobal countGe2 collideRows).map (·.isSome) = [false, false, true] := by decide
+example : encGlobal [some ['x', '|', 'y'], some ['z']] ≠ encGlobal [some ['x'], some ['y', '|', 'z']] := by decide
+example : encGlobal [none] ≠ encGlobal [some []] := by decide
+
+/-- a non-injective encoder does break isolation (why `KeysInj` is needed in the general theorem):
+with the constant encoder the second row fires a group that its own rows alone would not fire -/
+example : proj 1 [rw' 0, rw' 1] (run (fun _ : Nat => 0) countGe2 [rw' 0, rw' 1]) ≠
+    run (fun _ : Nat => 0) countGe2 ([rw' 0, rw' 1].filter fun r => r.key = 1) := by decide
 
 /-! ## binding of predicate aggregates -/
 
@@ -211,7 +246,6 @@ example : segAt id q1 [rw 0 1 1, rw 1 2 100, rw 0 3 2, rw 0 4 9] (rw 0 5 7) = [r
 example : NullSafe id q1 [rw 0 1 1, rw 1 2 100, rw 0 3 2, rw 0 4 9, rw 0 5 7] = true := by decide
 example : pointSafe q1.pred [nullRow] = true ∧ allNonNull q1.pred [nullRow] = false := by decide
 example : findOutputSpec q1.outputs ⟨.count, none⟩ = some 0 ∧ findOutputSpec q1.outputs ⟨.max, some 0⟩ = none := by decide
-example : encJoin [some ['x', '|', 'y'], some ['z']] = encJoin [some ['x'], some ['y', '|', 'z']] := by decide
 example : aggList (ν := Int) .min [.num 4, .null, .junk, .num (-2), .missing] = some (-2) ∧
     aggList (ν := Int) .count [.num 4, .null, .junk, .num (-2), .missing] = some 3 ∧
     aggList (ν := Int) .sum [.null, .junk] = none := by decide
@@ -223,10 +257,11 @@ example (q : Query Nat Nat Rat) (pre : List (Row Nat Nat Rat)) (r : Row Nat Nat 
 end C17
 
 /-! tie to the source (regenerated on every run from the repository by factsgen): the literals of
-`getKeyAndValues` (no-key group name, NULL part, `%v`, separator), the placeholder format of
+`getKeyAndValues` (no-key group name, `%v`) and the shared key-part separator / NULL token, the placeholder format of
 `buildTrigger`, `*`/empty-argument handling, and the aggregate-call regular expression -/
 theorem C17.facts_global_window :
-    Facts.window_GlobalWindow_getKeyAndValues_strlits = ["__global__", "", "%v", "|"] ∧
+    Facts.window_GlobalWindow_getKeyAndValues_strlits = ["__global__", "%v"] ∧
+    Facts.window_groupKeyPartSep = "|" ∧ Facts.window_groupKeyNullPart = "\\N" ∧
     Facts.window_GlobalWindow_buildTrigger_strlits.head? = some "__trig_%d__" ∧
     Facts.window_GlobalWindow_findAggCalls_strlits = ["*", "", "*"] ∧
     Facts.window_normalizeField_strlits = ["", "*"] ∧
